@@ -5,6 +5,8 @@ def harness_args(run, tier, n, cases):
         ["-pass", "seq", "-seed", run.seed, "-n", nseq, "-tier", tier, "-out", base + ".seq.cases"],
         ["-pass", "hist", "-seed", run.seed, "-n", n, "-tier", tier, "-out", base + ".hist.cases"],
         ["-pass", "block", "-seed", run.seed, "-n", 1, "-tier", tier, "-out", base + ".block.cases"],
+        # last but one, own process: a Close that hangs on the farewell write is abandoned after 15 s
+        ["-pass", "closestall", "-seed", run.seed, "-n", 1, "-tier", tier, "-out", base + ".closestall.cases"],
         ["-pass", "acceptrace", "-seed", run.seed, "-n", 1, "-tier", tier, "-out", base + ".acceptrace.cases"],
         ["-pass", "armpark", "-seed", run.seed, "-n", 1, "-tier", tier, "-out", base + ".armpark.cases"],
         # last, in its own process: a Close that fails to abort a dial leaves a loop alive for 30 s
@@ -28,6 +30,7 @@ PROP = {
     "assumptions": [
         "atomicity of the LTS steps as read from the code (DESIGN.md Appendix A.3): atomic loads/stores/CAS, publishMu and startGate critical sections, channel operations; lifeMu is the API program counter",
         "LcLPublish models {re-check shutdown/reconnectGen; ArmStart; cur.Store} as ONE action (the publishMu critical section): the e2e pass armpark (the loop parked at the entry of ArmStart through the verif seam hsms.VerifParkTransport, Close called, loop released; passive/active x HSMS-SS/SECS-I) is the correspondence for that atomic-action assumption; invariant clause 7 (a Stop-sealed generation keeps the start gate sealed) is what a split would break",
+        "option matrix crossed with the calm-Close hygiene scenarios (e2e): WithWriteTimeout 0 / 60 ms / default(30 s) x Close-from-Selected against a peer that is up but not reading x a send parked awaiting its reply (pass closestall); closeTimeout 200 ms / 400 ms / 1 s (passes block, hist, blackhole); T5/backoff at initial >/=/< T5 and live changes (C11 e2e); T6/T7/T8/linktest in the tens of milliseconds; ConnectTimeout set and unset (hist)",
         "handlers return, so every bounded join completes: the ErrCloseTimeout path (which deliberately abandons goroutines) is not modelled",
         "transport contract as implemented by hsmsss (Start fails only before TCPUp; Stop = seal, close, join); the SECS-I transport shares the connection core and is exercised by the e2e passes (seq cycles and a quarter of the random histories run secs1.New over the same rig, against a line that is held / dropped / cut but does not speak E4) but is not modelled separately",
         "environment actions (peer connect/drop, dial results, T7/linktest expiry, write errors) are enabled whenever structurally possible - a superset of real behaviours",
